@@ -14,7 +14,8 @@ for a in argv:
         extra.setdefault(a.split('=')[0], []).append(a.split('=')[1])
 # related checks known to catch a change its own check cannot see
 for sid, chk in (('C09A', 'C16'), ('C07C', 'C01'), ('C15C', 'C19'), ('C17F', 'C12'), ('C01D', 'C06'), ('C01D', 'C03'), ('C01F', 'C03'), ('C02D', 'C03'), ('C02F', 'C12'),
-                 ('C07D', 'C06'), ('C07E', 'C03'), ('C09F', 'C16'), ('C11D', 'C19'), ('C19E', 'C11'), ('C19E', 'C15'), ('C09D', 'C07'), ('C13E', 'C09'), ('C13D', 'C09')):
+                 ('C07D', 'C06'), ('C07E', 'C03'), ('C09F', 'C16'), ('C11D', 'C19'), ('C19E', 'C11'), ('C19E', 'C15'), ('C09D', 'C07'), ('C13E', 'C09'), ('C13D', 'C09'),
+                 ('C03G', 'C06'), ('C03H', 'C04'), ('C07G', 'C01'), ('C11H', 'C19'), ('C12H', 'C04'), ('C01H', 'C06')):
     extra.setdefault(sid, []).append(chk)
 only = [a for a in argv if '=' not in a]
 res = json.load(open(V + '/seeded/RESULTS.json')) if os.path.exists(V + '/seeded/RESULTS.json') and not fresh else {}
